@@ -201,6 +201,8 @@ def run(ctx):
         if ctx.out_of_time():
             break
         random_case(ctx, n, mon)
+    for i in range(ctx.pick(6, 80)):
+        mixed_type_keys(ctx, ctx.rng('mixed', i))
     ledger_part(ctx, mon)
 
 
@@ -296,6 +298,37 @@ def ledger_distinct_case(ctx, conn, rng):
     if [tuple(r) for r in rows] != [tuple(r) for r in exp]:
         ctx.violation('c03.distinct_structured_rows', f'{dist}: {len(rows)} rows; removing later duplicates from the {len(base)} rows of the statement without DISTINCT leaves {len(exp)}'
                       f' (first rows {show_rows(rows, 2)} vs {show_rows(exp, 2)})', {'statement': dist})
+
+
+def mixed_type_keys(ctx, rng):
+    """An untyped key column holding comparable values of several types (ints beside decimals, booleans beside numbers):
+    they are ordered by value; equal values of different types tie and keep their order."""
+    from decimal import Decimal as D_
+    from ..model import ModelTable
+    pool = [1, D_('2.5'), True, 10, D_('1E+1'), D_('10.0'), None, 0, -1, False, D_('-1.0'), 3, D_('0.5'), None, 2]
+    rows = [(i, rng.choice(pool), rng.choice(pool), rng.choice(['a', 'b'])) for i in range(rng.randint(6, 16))]
+    mt = ModelTable('m', [('k', int), ('o', object), ('p', object), ('s', str)], rows)
+    conn = engine.connection()
+    conn.tables['m'] = engine.harness_table(mt)
+    for keys in (['o'], ['o DESC'], ['s', 'o'], ['o', 'p DESC'], ['p DESC', 'o DESC']):
+        text = f'SELECT k, o, p, s FROM #m ORDER BY {", ".join(keys)}' + rng.choice(['', ' LIMIT 4'])
+        try:
+            _, _, got = engine.run(conn, text)
+        except Exception as exc:  # noqa: BLE001
+            ctx.violation(f'c03.engine_raised.{monitors.classify_exception(exc)}', f'{text}: {exc!r}', {'statement': text, 'rows': show_rows(rows, 20)})
+            return
+        specs = []
+        for kx in keys:
+            col = {'o': 1, 'p': 2, 's': 3}[kx.split()[0]]
+            specs.append(((lambda c: (lambda r: r[c]))(col), kx.endswith('DESC')))
+        exp = model.sort_rows(list(rows), specs)
+        if ' LIMIT ' in text:
+            exp = exp[:4]
+        ctx.case(('mixed-type-keys', text, repr(rows)), True)
+        ctx.count('obs.mixed_type_key_cases')
+        if [tuple(r) for r in got] != exp:
+            ctx.violation('c03.mixed_type_keys', f'{text}: engine {show_rows(got, 6)} expected {show_rows(exp, 6)}', {'statement': text, 'rows': show_rows(rows, 20)})
+            return
 
 
 def ledger_case(ctx, conn, table, shown, key, desc):
